@@ -281,6 +281,12 @@ def interps_for(f, ig, rng, k):
     return out
 
 
+def case_rng(ctx, idx):
+    """interpretations of a case depend on (seed, case index) only, so that a replay samples the same ones"""
+    import random
+    return random.Random((ctx.seed << 24) ^ (idx * 2654435761 % (1 << 24)))
+
+
 def show_interp(I):
     syms, fns, _ = I
     d = {n: repr(v) for n, _, v in syms}
@@ -352,7 +358,11 @@ def run_cnf(ctx, env, cases, ig):
         r = mt
         if ans is None:
             continue
-        compare_cnf(ctx, r, line, ans, env)
+        try:
+            compare_cnf(ctx, r, line, ans, env)
+        except Exception as e:
+            ctx.report_k("%s: the results cannot be compared (%r)" % (r.which, e),
+                         {"proc": r.which, "formula": semantic.readable(r.case.f), "index": r.case.idx})
     # ---- S
     search_cnf(ctx, env, runs, shape_ans, ig)
 
@@ -387,13 +397,13 @@ def compare_cnf(ctx, r, line, ans, env):
     for g, v in r.iv.items():
         try:
             k = term_key(g)
-        except wire.OutOfFragment:
+            if k in mkeys:
+                rename[v.symbol_name()] = mkeys[k]
+        except Exception:           # the implementation's table no longer maps formulas to symbols
             continue
-        if k in mkeys:
-            rename[v.symbol_name()] = mkeys[k]
     # freshness of the implementation's definition variables (what the theorems assume)
     fvnames = {s.symbol_name() for s in f.get_free_variables()}
-    auxnames = [v.symbol_name() for v in r.iv.values()]
+    auxnames = [v.symbol_name() for v in r.iv.values() if hasattr(v, "symbol_name")]
     if len(set(auxnames)) != len(auxnames) or fvnames & set(auxnames):
         ctx.report_k("%s: definition variables are not fresh" % r.which, dict(rep, aux=auxnames))
     impl_set = set()
@@ -434,7 +444,9 @@ def search_cnf(ctx, env, runs, shape_ans, ig):
         by_case.setdefault(r.case.idx, []).append(r)
     for idx, rs in by_case.items():
         f = rs[0].case.f
-        interps = interps_for(f, ig, ctx.rng, k)
+        crng = case_rng(ctx, idx)
+        ig.rng = crng
+        interps = interps_for(f, ig, crng, k)
         ilines = [wire.enc_interp(*I) for I in interps]
         for r in rs:
             nontriv = None
@@ -612,7 +624,11 @@ def run_ack(ctx, env, cases, ig):
         if kind == "shape":
             r["shape"] = ans
         else:
-            compare_ack(ctx, r, line, ans)
+            try:
+                compare_ack(ctx, r, line, ans)
+            except Exception as e:
+                ctx.report_k("ack: the results cannot be compared (%r)" % (e,),
+                             {"proc": "ack", "formula": semantic.readable(r["case"].f), "index": r["case"].idx})
     search_ack(ctx, env, runs, ig)
 
 
@@ -697,11 +713,13 @@ def search_ack(ctx, env, runs, ig):
             ctx.sample({"formula": semantic.readable(f), "ack": semantic.readable(res, 600)})
         consts = sorted(td.values(), key=lambda c: c.symbol_name())
         apps = sorted(td.keys(), key=lambda a: (depth(a, {}), a.node_id()))
-        for I in interps_for(f, ig, ctx.rng, kI):
+        crng = case_rng(ctx, case.idx)
+        ig.rng = crng
+        for I in interps_for(f, ig, crng, kI):
             syms, fns, doms = I
             try:
                 il = wire.enc_interp(syms, fns, doms)
-                item = {"r": r, "I": I, "il": il, "f": ask("evalc %s %s" % (il, wire.enc_term(f))),
+                item = {"r": r, "I": I, "il": il, "rng": crng, "f": ask("evalc %s %s" % (il, wire.enc_term(f))),
                         "apps": [ask("evalc %s %s" % (il, wire.enc_term(a))) for a in apps], "applist": apps,
                         "consts": consts}
             except wire.OutOfFragment:
@@ -749,7 +767,7 @@ def search_ack(ctx, env, runs, ig):
             cands = list(itertools.product(*doms_c))
         else:
             for _ in range(nJ):
-                cands.append(tuple(ctx.rng.choice(d) if ctx.rng.random() < 0.5 else v
+                cands.append(tuple(it["rng"].choice(d) if it["rng"].random() < 0.5 else v
                                    for d, (_, _, v) in zip(doms_c, canon)))
         it["J"] = []
         for cv in cands:
@@ -890,6 +908,9 @@ def run_cases(ctx, env, uni, cases):
 def run(ctx):
     env, uni, cases = gen_cases(ctx.rng, ctx.tier)
     run_cases(ctx, env, uni, cases)
+    # smallest failing input of every kind first (the runner prints the first five distinct signatures)
+    ctx.s_violations.sort(key=lambda v: len(str(v["replay"].get("formula", ""))))
+    ctx.k_divergences.sort(key=lambda v: len(str(v["replay"].get("formula", ""))))
 
 
 def replay(ctx, rep):
@@ -904,4 +925,10 @@ def replay(ctx, rep):
         return
     print("replaying case %d: %s" % (sel[0].idx, semantic.readable(sel[0].f)))
     ctx.rng = rng
+    ctx.seed = rep.get("seed", 0)
+    ctx.tier = rep.get("tier", ctx.tier)
     run_cases(ctx, env, uni, sel)
+    for v in ctx.s_violations:
+        print("still failing:", v["what"])
+    if not ctx.s_violations and not ctx.k_divergences:
+        print("the recorded case passes on the current tree")
